@@ -303,6 +303,7 @@ def py_monitors(sc, trace, final=None):
     pending_rows = []
     collected = []
     unrerun_missing = set()
+    second_attempt = False
     round_rows = {}      # pid -> names of the rows its current round consolidated
     failed_poll = set()  # pids whose current round had a failed squeue
     node_group = {}
@@ -417,8 +418,9 @@ def py_monitors(sc, trace, final=None):
                 if not bad:
                     probs.append(("C04", "canceled-without-failed-blocker", f"job {n} canceled but no blocker failed", i))
             else:
-                if ev["rc"] != by[n].get("rc", 0):
-                    probs.append(("C19", "wrong-rc", f"job {n} recorded rc {ev['rc']} != {by[n].get('rc', 0)}", i))
+                want_rc = by[n].get("rc2", by[n].get("rc", 0)) if second_attempt else by[n].get("rc", 0)
+                if ev["rc"] != want_rc:
+                    probs.append(("C19", "wrong-rc", f"job {n} recorded rc {ev['rc']} != {want_rc}", i))
             if ev.get("batch") is not None:
                 pending_rows.append(n)
         elif k == "collect" and ev.get("ok"):
@@ -433,6 +435,7 @@ def py_monitors(sc, trace, final=None):
             # a resubmission legitimately runs the selected jobs again: forget their first-phase history
             # jobs that had no result at the resubmission and are not rerun stay without outcome for good
             unrerun_missing = {j["name"] for j in sc["jobs"] if j["name"] not in rows and j["name"] not in ev["rerun"]}
+            second_attempt = True
             for n in ev["rerun"]:
                 launched.pop(n, None)
                 handed.pop(n, None)
@@ -532,6 +535,18 @@ def py_monitors(sc, trace, final=None):
             bad = [d for d in by[n].get("deps", []) if d in rows and d != n and rows[d][0] != 0]
             if not bad:
                 probs.append(("C04", "canceled-without-failed-blocker", f"job {n} canceled by a submitter but no blocker failed", i))
+    # C16 / C05: a node teardown command that exits non-zero is logged; the node still ends its batch with the
+    # try-submit-jobs round that collects its results
+    if (sc.get("hooks_rc") or {}).get("node_teardown"):
+        for i, ev in enumerate(trace):
+            if ev["k"] == "hook" and ev.get("which") == "node_teardown":
+                nd = ev.get("node")
+                rest = trace[i + 1:]
+                if any(e["k"] == "kill" for e in trace):
+                    break
+                if not any(e["k"] == "spawn_child" and e.get("node") == nd and e.get("ckind") == "try" for e in rest):
+                    for p_ in ("C16", "C05"):
+                        probs.append((p_, "node-teardown-failure-stops-the-node", f"node {nd}: after its teardown command exited non-zero the node did not run its try-submit-jobs round", i))
     return probs
 
 
@@ -583,6 +598,13 @@ def apply_action(vc, act, rng):
             vc.hpc[a.stack[0].batch]["state"] = "GONE"
             vc.trace.append({"k": "batch_end", "p": 0, "id": a.stack[0].batch, "why": "killed"})
         return "kill:" + a.label
+    if do == "interrupt":
+        # Ctrl-C on the process that emitted the triggering event (a submitter on a login node)
+        cands = [a for a in _alive(vc) if any(p.pid == act.get("_pid") for p in a.stack) and a.stack[0].kind != "node"]
+        if not cands:
+            return None
+        cands[0].interrupt = True
+        return "interrupt:" + cands[0].label
     if do == "timeout":
         ids = vc.active_ids()
         if not ids:
@@ -637,6 +659,8 @@ def run_plan(sc, seed, plan=None):
         faults["finish_order"] = list(plan["finish_order"])
     if plan.get("scan_error"):
         faults["scan_error"] = plan["scan_error"]
+    if plan.get("launch_error"):
+        faults["launch_error"] = plan["launch_error"]
     vc = vcluster.VirtualCluster(sc, seed=seed, strategy=plan.get("strategy", "random"), schedule=plan.get("schedule"),
                                  break_stale=bool(plan.get("break_stale")), faults=faults)
     applied = []
@@ -697,6 +721,9 @@ def run_plan(sc, seed, plan=None):
             # Resubmission is outside the Coq system model: the acceptor judges the trace up to this marker,
             # the Python monitors judge all of it.
             vc.trace.append({"k": "phase2", "p": 0, "flags": plan["then_resubmit"]})
+            for j in sc["jobs"]:
+                if "rc2" in j:              # a command whose second attempt ends differently
+                    vc.rc[j["name"]] = j["rc2"]
             vc.resubmit(**plan["then_resubmit"])
             vc.run()
             rec += recover_loop()
